@@ -87,8 +87,9 @@ def make_file(b, op, placement, using, strlen, tag='', rich=False):
 def job(chk, items):
     e = chk.engine()
     results = []
-    for (op, placement, using, bound) in items:
-        for d in DETECTORS:
+    for item in items:
+        (op, placement, using, bound), only = item[:4], (item[4] if len(item) > 4 else None)
+        for d in ([only] if only else DETECTORS):
             b = sol.TreeBuilder()
             strlen = z3.BitVec('strlen', 64)
             # the operator-rich body (a call site under every binary / prefix operator) in one of the files; the others keep the short body
@@ -160,7 +161,9 @@ def body(chk):
                   'outside': 'range pragmas / several `pragma solidity` directives (the property speaks of one full version)'}
     chk.assumptions = ['regex contract for \\d+\\.\\d+\\.+\\d+ on structured strings: match structure independent of the digits chosen (validated natively on every path)',
                        'parse::<i32> contract: decimal digits, value must fit', 'as C05']
-    chunks = [combos[k:k + 2] for k in range(0, len(combos), 2)]
+    is_rich = lambda c: c[1] == 'only' and c[2] == 'contract' and c[0] == '>='
+    plain = [c for c in combos if not is_rich(c)]
+    chunks = [plain[k:k + 2] for k in range(0, len(plain), 2)] + [[c + (d,)] for c in combos if is_rich(c) for d in DETECTORS]      # the long file: one job per detector
     chk.parallel(job, chunks)
     if chk.undecided:
         versions = [(M, m, p) for M in (0, 1) for m in range(0, 13) for p in range(0, 41)]
